@@ -480,11 +480,13 @@ class BADS:
                 + " are not inside the provided plausible bounds (plausible_lower_bounds and plausible_upper_bounds)."
                 + " Expanding the plausible bounds..."
             )
+            # (only finite starting points can widen the plausible box)
+            finite_x0 = np.isfinite(x0)
             plausible_lower_bounds = np.minimum(
-                plausible_lower_bounds, x0.min(0)
+                plausible_lower_bounds, np.where(finite_x0, x0, np.inf).min(0)
             )
             plausible_upper_bounds = np.maximum(
-                plausible_upper_bounds, x0.max(0)
+                plausible_upper_bounds, np.where(finite_x0, x0, -np.inf).max(0)
             )
 
         # Test order of bounds
